@@ -1,3 +1,4 @@
+\* behaviour emission: ModifyInstance of reference properties (all cases of ModCase)
 SPECIFICATION Spec
 CONSTANTS
   LegacyBreak = FALSE
@@ -5,18 +6,18 @@ CONSTANTS
   NoShadow = FALSE
   NoPreCheck = FALSE
   XParU = {}
-  ModEnds = "off"
+  ModEnds = "asis"
   ShallowSub = FALSE
-  IgnoreNs = TRUE
+  IgnoreNs = FALSE
   ModSharedPath = FALSE
   MaxMod = 0
-  NodeU <- NodeU4
+  NodeU <- NodeU5
   MaxAssoc = 2
-  CreateNs = {1}
-  ClsU = {"AB", "ABS", "AT", "AL"}
+  CreateNs = {1, 2}
+  ClsU = {"AL"}
   AcU <- AcSmall
   RcU <- RcSmall
   RlU <- RlSmall
-  GenDepth = 0
-INVARIANT ImplEqualsDecl
+  GenDepth = 5
+CONSTRAINT GenConstraint
 CHECK_DEADLOCK FALSE
